@@ -15,6 +15,23 @@ RULE = ("end-to-end transfers between a real client and a real server (non-trivi
         "slice / a range sequence that never holds two ranges); distinct = distinct case lines")
 
 
+def replay_lines(run):
+    """--replay <file>: only the case lines of a replay file written by this check"""
+    path = getattr(run, "replay", None)
+    if not path:
+        return None
+    out = []
+    for l in open(path):
+        l = l.strip()
+        for pre in ("case: ", "(shrunk: ", "(original case: "):
+            if l.startswith(pre):
+                l = l[len(pre):].rstrip(")")
+        if l.split(" ")[0] in ("e2e", "peer") or l.startswith("blk"):
+            if l not in out:
+                out.append(l)
+    return out
+
+
 def nontrivial(line, out):
     k = line.split()[0]
     if k in ("blkopt", "blkdec"):
@@ -34,13 +51,19 @@ def leaf(run, model, drv):
     lines = list(vlib.read_corpus("C09"))
     ncorpus = len(lines)
     lines = [l for l in lines if l.split()[0].startswith("blk")]
-    lines += gen_block.opt_cases(r, 3000 if quick else 50000, 0 if quick else 8192, not quick)
-    lines += gen_block.dec_cases(r, 4000 if quick else 100000, 0 if quick else 37)
-    lines += gen_block.setup_cases(r, 2000 if quick else 100000)
-    lines += gen_block.fls_cases(r, 3000 if quick else 70000)
-    lines += gen_block.slice_cases(r, 300 if quick else 5000)
-    lines += gen_block.rb_exhaustive(6, 5 if quick else 6)
-    lines += gen_block.rb_random(r, 4000 if quick else 200000)
+    rp = replay_lines(run)
+    if rp is not None:
+        lines = [l for l in rp if l.startswith("blk") and not l.startswith("blkpeer")]
+    else:
+        lines += gen_block.opt_cases(r, 6000 if quick else 50000, 0 if quick else 8192, 0 if quick else 1)
+        lines += gen_block.dec_cases(r, 4000 if quick else 100000, 0 if quick else 37)
+        lines += gen_block.setup_cases(r, 2000 if quick else 100000)
+        lines += gen_block.fls_cases(r, 3000 if quick else 70000)
+        lines += gen_block.slice_cases(r, 300 if quick else 5000)
+        lines += gen_block.rb_exhaustive(6, 5 if quick else 6)
+        lines += gen_block.rb_random(r, 20000 if quick else 200000)
+    if not lines:
+        return 0
     om, oc, crashes = tie.run_both(model, drv, lines)
     run.cov["leaf_driver_crashes"] = len(crashes)
     nbad = 0
@@ -81,18 +104,22 @@ E2E_WRAPS = ["coap_ticks", "coap_socket_send", "coap_socket_recv"]
 
 
 def e2e_cases(run):
+    rp = replay_lines(run)
+    if rp is not None:
+        return [l for l in rp if l.startswith("e2e ")]
     r = tie.rng_for(run, "c09-e2e")
     quick = run.tier == "quick"
     lines = [l for l in vlib.read_corpus("C09") if l.startswith("e2e ")]
     lines += gen_block.e2e_boundary(r, full=not quick)
     lines += gen_block.e2e_small_and_large(r, 12 if quick else 300)
+    lines += gen_block.e2e_all_lengths(r, 200 if quick else 4200, [0, 1, 2] if quick else gen_block.SZX)
     lines += gen_block.e2e_mtu(r)
     bodies = [("b1", 40, 0, 0, 1), ("b2", 40, 0, 0, 1), ("b1", 33, 0, 1, 1), ("b2", 48, 0, 1, 0)]
     lines += gen_block.e2e_sched_exhaustive(r, ".x2", 5 if quick else 8, bodies[:2])
     lines += gen_block.e2e_sched_exhaustive(r, ".xrh", 4 if quick else 6, bodies[2:])
-    lines += gen_block.e2e_sched_random(r, 1500 if quick else 12000)
-    lines += gen_block.e2e_two_uploads(r, 300 if quick else 6000)
-    lines += gen_block.e2e_slow(r, 60 if quick else 1500)
+    lines += gen_block.e2e_sched_random(r, 6000 if quick else 30000)
+    lines += gen_block.e2e_two_uploads(r, 800 if quick else 8000)
+    lines += gen_block.e2e_slow(r, 120 if quick else 1500)
     return lines
 
 
@@ -199,16 +226,18 @@ def peer(run, model):
     r = tie.rng_for(run, "c09-peer")
     quick = run.tier == "quick"
     cases = []
-    for l in vlib.read_corpus("C09"):
+    rp = replay_lines(run)
+    for l in (vlib.read_corpus("C09") if rp is None else rp):
         if l.startswith("peer "):
             t = l.split()
             cases.append((l, "blkpeer %s %s %s %s %s" % (t[1], t[2], t[3], "0" if t[4] == "7" else t[4],
                                                         " ".join(t[6:]))))
     ncons = len(cases)
-    cases += gen_block.peer_cases(r, 900 if quick else 12000, 0.0)
-    ncons = len(cases)            # up to here the peer is honest: the oracle applies
-    cases += gen_block.peer_cases(r, 1100 if quick else 20000, 0.35)
-    cases += gen_block.peer_cases(r, 500 if quick else 8000, 0.7)
+    if rp is None:
+        cases += gen_block.peer_cases(r, 3000 if quick else 20000, 0.0)
+        ncons = len(cases)            # up to here the peer is honest: the oracle applies
+        cases += gen_block.peer_cases(r, 4000 if quick else 30000, 0.35)
+        cases += gen_block.peer_cases(r, 2000 if quick else 10000, 0.7)
     mo, _ = vlib.run_lines_robust(model, [m for d, m in cases], timeout=1500)
     co, crashes = vlib.run_lines_robust(drv, [d for d, m in cases], timeout=1500)
     run.cov["peer_driver_crashes"] = len(crashes)
@@ -292,6 +321,7 @@ def main(run):
     def mark(name):
         nonlocal t0
         phases[name] = round(time.time() - t0, 1)
+        vlib.log("C09 phase %s: %.1f s" % (name, phases[name]))
         t0 = time.time()
     run.prove()
     mark("prove")
@@ -304,7 +334,7 @@ def main(run):
     mark("e2e")
     peer(run, model)
     mark("peer")
-    if run.tier != "quick":
+    if run.tier != "quick" and replay_lines(run) is None:
         sanitized(run)
         mark("sanitized")
     run.cov["phase_seconds"] = phases
